@@ -167,7 +167,15 @@ impl Family for C07Family {
                 UserOutcome::Err(0x2F),
             ])];
         }
+        c.cell = Some(actor.ops.len() as u32);
         actor.ops.push(target);
+        // what a faulted or cancelled ceremony leaves behind in the authenticator must not leak
+        // into the next ceremonies: 0-2 un-faulted ceremonies follow the target
+        let n_after = r.below(3);
+        for _ in 0..n_after {
+            let k = gen_target(&mut r, &c.prelude, &actor);
+            actor.ops.push(plain_op(k));
+        }
         c.actors.push(actor);
         Scenario { family: "C07".into(), batch: "ref".into(), seed: master, index, body: Body::Ceremony(c) }
     }
@@ -180,7 +188,7 @@ impl Family for C07Family {
         if rec.outcome != Outcome2::Done {
             return out;
         }
-        let t_idx = c.actors[0].ops.len() - 1;
+        let t_idx = c.cell.map(|x| x as usize).unwrap_or(c.actors[0].ops.len() - 1);
         let Some(target) = rec.op(0, t_idx) else { return out };
         let k_polls = target.polls;
         let mut calls: Vec<(SeamKind, u32)> = Vec::new();
@@ -404,7 +412,8 @@ impl Family for C07Family {
             }
         }
         // measurements
-        let t = rec.ops.iter().find(|o| o.actor == 0 && o.idx + 1 == c.actors[0].ops.len());
+        let t_idx = c.cell.map(|x| x as usize).unwrap_or(c.actors[0].ops.len() - 1);
+        let t = rec.ops.iter().find(|o| o.actor == 0 && o.idx == t_idx);
         if let Some(t) = t {
             let spec = op_spec(c, t);
             let mut f = crate::rng::Fnv::new();
